@@ -74,7 +74,9 @@ def run_dtype(ctx, dtype):
     # ---- correspondence with the model: unary and binary ops
     reqs, meta = [], []
     for name, (sr, grid) in srs.items():
-        for x in grid:
+        # star near the multiplicative identity from below (log: 1 - e^x suffers cancellation there); not part of the law grid,
+        # whose values are chosen so that sums are exact
+        for x in grid + ([-1e-3, -1e-5, -1e-8, -2.0 ** -30, -1e-12, -2.0 ** -60, -1e-300] if name != 'real' else []):
             reqs.append(f'C08.op {name} star {enc_ext(big)} 1 {enc_ext(x)}')
             meta.append((name, 'star', (x,), sr.star(T(x)).item()))
         for x, y in itertools.product(grid, repeat=2):
@@ -136,7 +138,10 @@ def log_ref(op, args):
             return m + math.log(math.exp(x - m) + math.exp(y - m))
         if op == 'star':
             (x,) = args
-            return -math.log1p(-math.exp(x)) if x < 0 else math.inf
+            if x >= 0:
+                return math.inf
+            # star(x) = -log(1 - e^x): the accurate form near 0 is -log(-expm1(x)), away from 0 it is -log1p(-e^x)
+            return -math.log(-math.expm1(x)) if x > -1 else -math.log1p(-math.exp(x))
         if op == 'from_int':
             return math.log(args[0])
     except (OverflowError, ValueError):
